@@ -25,9 +25,8 @@ fn pragma_comment_rule<const T: u8>() {
         0 => " @jsx h ", 1 => "* @jsx h", 2 => "@jsx custom", 3 => " plain comment ", 4 => "@jsxImportSource vue", 5 => "@jsxFrag F",
         6 => "@jsxRuntime classic", 7 => "@jsx", 8 => "* @jsx  ", 9 => "@jsx h more words", _ => "*\n * @jsx h\n ",
     };
-    let mut cm = SingleThreadedComments::new();
-    cm.leading.push((BytePos(10), vec![Comment { kind: CommentKind::Block, span: sp(1), text: Atom::from(text) }]));
-    let mut v: VC = VueJsxTransformVisitor::new(any_options(), UNRESOLVED, Some(cm));
+    unsafe { swc_core::common::comments::G_POS = 10; swc_core::common::comments::G_N = 1; swc_core::common::comments::G_TEXT0 = Atom::from(text); }
+    let mut v: VC = VueJsxTransformVisitor::new(any_options(), UNRESOLVED, Some(GlobalComments));
     v.search_jsx_pragma(Span { lo: BytePos(10), hi: BytePos(20) });
     let (found, s, e) = spec_pragma(text.as_bytes());
     if found {
@@ -37,7 +36,7 @@ fn pragma_comment_rule<const T: u8>() {
     }
     std::mem::forget(v);
 }
-macro_rules! pc_h { ($($n:ident: $a:expr;)*) => { $(#[kani::proof] #[kani::unwind(20)] #[kani::stub(std::ptr::drop_in_place, no_drop)] #[kani::stub(core::ptr::drop_glue, no_glue)] fn $n() { pragma_comment_rule::<$a>() })* } }
+macro_rules! pc_h { ($($n:ident: $a:expr;)*) => { $(#[kani::proof] #[kani::unwind(24)] #[kani::stub(std::ptr::drop_in_place, no_drop)] #[kani::stub(core::ptr::drop_glue, no_glue)] fn $n() { pragma_comment_rule::<$a>() })* } }
 pc_h! { pragmac_plain: 0; pragmac_jsdoc: 1; pragmac_custom: 2; pragmac_unrelated: 3; pragmac_importsource: 4; pragmac_frag: 5; pragmac_runtime: 6;
         pragmac_noname: 7; pragmac_noname_star: 8; pragmac_trailing_words: 9; pragmac_multiline: 10; }
 
